@@ -219,3 +219,14 @@ pub fn num_partial_products(n: usize, max_degree: usize) -> usize {
 pub fn eval_l_0<F: Field>(n: usize, x: F) -> F {
     crate::plonk::plonk_common::eval_l_0(n, x)
 }
+
+/// (selector_indices, groups) of a `SelectorsInfo`.
+pub fn selectors_info_parts(
+    s: &crate::gates::selectors::SelectorsInfo,
+) -> (Vec<usize>, Vec<core::ops::Range<usize>>) {
+    (s.selector_indices.clone(), s.groups.clone())
+}
+
+pub fn unused_selector() -> usize {
+    crate::gates::selectors::UNUSED_SELECTOR
+}
